@@ -20,11 +20,12 @@ ASSUMPTIONS = [
     "np.random.normal(loc, 0) returns loc (model: loc + 0*xi); kin_scaling result taken from the real call",
     "DdtDdKDE cannot be constructed in this environment (lenstronomy API drift): exercised through the "
     "generated dispatch table with a stub data likelihood",
-    "lambda != 0 (where the code's dd*lambda/lambda is 0/0) and lambda*(1-kappa) >= 1e-4 as in the property's quantifier",
+    "lambda*(1-kappa) >= 1e-4 as in the property's quantifier (below the floor: correspondence only; lambda = 0 "
+    "exactly is part of the floor stream since the repo fix for F15)",
 ]
 TRUSTED = ["hand-written model HierArc/Model/Lens.lean tied by differential execution",
            "translator/tables.py (dispatch table of LensLikelihoodBase.log_likelihood)"]
-LEVEL_TEXT = ("Lean theorems over ℝ: displace_prediction is the stated rescaling above the floor (λ≠0 named), "
+LEVEL_TEXT = ("Lean theorems over ℝ: displace_prediction is the stated rescaling above the floor, "
               "neutral values, PPN/MST and λ/κ commutation and composition, (λ,κ)≡(λ(1−κ),0); for sharp "
               "hyper-parameters every successful single evaluation hands Ddt·λ(1−κ), Dd(1+γ)/2, μ+Δμ+5log10(λ(1−κ)), "
               "β, λ with λ=(λ_int|λ_ifu)+αx+βy to the dispatch; the dispatch table is regenerated from the source and "
@@ -77,9 +78,9 @@ def gen_case(rng, ltype, stream):
         cfg["mst_ifu"] = False
         h["kwargs_lens"] = dict(lambda_mst=1.0, gamma_ppn=1.0, lambda_mst_sigma=0.0)
     if stream == "floor":
-        # lambda_tot below 1e-4 but lambda != 0
+        # lambda_tot below 1e-4, including lambda = 0 exactly (Python float: F15 was a ZeroDivisionError there)
         key = "lambda_ifu" if cfg["mst_ifu"] else "lambda_mst"
-        h["kwargs_lens"][key] = rng.choice([1e-5, -0.3, 5e-5])
+        h["kwargs_lens"][key] = rng.choice([1e-5, -0.3, 5e-5, 0.0])
         h["kwargs_lens"].pop("alpha_lambda", None)
         h["kwargs_lens"].pop("beta_lambda", None)
     if ltype == "DSPL" and rng.random() < 0.5:
